@@ -1,0 +1,26 @@
+//go:build verif
+
+package context
+
+import "github.com/lindb/lindb/sql/stmt"
+
+// Verification exports for property C17 (a parsed statement survives the wire unchanged, "so a
+// leaf node executes the statement the root planned"). Read-only views of what a plan stage
+// (RootMetricContext / IntermediateMetricContext / MetadataContext .MakePlan) put into its task
+// requests and of the statement the planning node keeps. No-op for normal builds.
+
+// VerifRequestPayloads returns target indicator => payload of the task requests added so far.
+func (ctx *baseTaskContext) VerifRequestPayloads() map[string][]byte {
+	ctx.mutex.Lock()
+	defer ctx.mutex.Unlock()
+	out := make(map[string][]byte, len(ctx.requests))
+	for target, req := range ctx.requests {
+		out[target] = append([]byte(nil), req.Payload...)
+	}
+	return out
+}
+
+// VerifStatement returns the statement the intermediate node keeps (and plans in place).
+func (ctx *IntermediateMetricContext) VerifStatement() *stmt.Query {
+	return ctx.statement
+}
